@@ -304,7 +304,7 @@ func (r *c07Run) fail(key, what, src, gen string, mapData []byte, cfg string) {
 }
 
 func runC07(c *Check) {
-	c.Rule = "marker programs (every identifier, number, string, template, CSS class/custom property is a unique marker) over 12 JS, 7 TS, 3 JSX and 7 CSS statement forms; layouts: 4 statement separators (LF, CRLF, one line, U+2028) x all single and pairs of 15 layout deviations (blanks, tabs, LF/CRLF/CR/U+2028/U+2029, 300-column prefix, astral / 2-byte / 3-byte characters in comments and strings earlier on the line, multi-line comments and templates) at 3 positions; x 12 transform configurations (minify ws/ids/all, charset, iife, es2015 lowering, banner/footer, sources-content) x sourcemap {external, inline, both}; bundles of an 8-file graph (JS + CSS; several dynamic imports on separate and on shared lines) x splitting with chunk/entry name templates of length 1-40 x sourcemap {linked, external, inline, both} x source-root x banner/footer x minify; two-stage builds whose inputs carry source maps (linked and inline). Every mapping of every emitted map is decoded by an independent VLQ decoder and checked: well-formed, positions in range, not inside a token, marker token == original marker token, recorded name == original identifier, sourcesContent == file text; distinct = distinct generated files"
+	c.Rule = "marker programs (every identifier, number, string, template, CSS class/custom property is a unique marker) over 12 JS, 7 TS, 3 JSX and 7 CSS statement forms; layouts: 4 statement separators (LF, CRLF, one line, U+2028) x all single and pairs of 15 layout deviations (blanks, tabs, LF/CRLF/CR/U+2028/U+2029, 300-column prefix, astral / 2-byte / 3-byte characters in comments and strings earlier on the line, multi-line comments and templates) at 3 positions; x 12 transform configurations (minify ws/ids/all, charset, iife, es2015 lowering, banner/footer, sources-content) x sourcemap {external, inline, both}; bundles of an 8-file graph (JS + CSS; several dynamic imports on separate and on shared lines) x splitting with chunk/entry name templates of length 1-40 x sourcemap {linked, external, inline, both} x source-root x banner/footer x minify; two-stage builds whose inputs carry source maps (linked and inline). Every mapping of every emitted map is decoded by an independent VLQ decoder and checked: well-formed, positions in range, not inside a token, marker token == original marker token, recorded name == original identifier, sourcesContent == file text; distinct = distinct generated files; banner/footer is an independent dimension of every transform and bundle configuration"
 	c.Assump = []string{"token identity is decided through marker texts: mappings of keywords and punctuators are only checked for being in range and at a token start on both sides", "completeness (that every token has a mapping) is not demanded by the statement and not checked; maps with no marker mapping are counted as vacuous_maps"}
 	r := &c07Run{c: c}
 	quick := c.Tier == "quick"
